@@ -38,9 +38,13 @@ pub enum Op {
 
 /// a, b, c are inserted; d never is. b and c share a slot (equality must look
 /// at the hash), d shares the slot of a (a miss that differs only in the hash).
+/// Second pass: b is the origin point (a `Point` variant of its own, with no slot and no hash).
+static ORIGIN_PASS: std::sync::atomic::AtomicBool = std::sync::atomic::AtomicBool::new(false);
+
 fn point(i: u8) -> Point {
     match i {
         0 => Point::Specific(10, vec![0x0a; 32]),
+        1 if ORIGIN_PASS.load(Relaxed) => Point::Origin,
         1 => Point::Specific(20, vec![0x0b; 32]),
         2 => Point::Specific(20, vec![0x0c; 32]),
         _ => Point::Specific(10, vec![0x0d; 32]),
@@ -181,7 +185,7 @@ fn step(real: &mut RollbackBuffer, model: &mut Vec<Point>, op: Op, diag: Option<
 }
 
 pub fn run(ctx: Ctx) -> ! {
-    let l: usize = if ctx.thorough { 12 } else { 8 };
+    let l_main: usize = if ctx.thorough { 12 } else { 8 };
     let diag = Diag {
         dup_rollbacks: AtomicU64::new(0),
         dup_first: AtomicU64::new(0),
@@ -193,6 +197,11 @@ pub fn run(ctx: Ctx) -> ! {
         observations: AtomicU64::new(0),
     };
     let replays = AtomicU64::new(0);
+    let mut passes = vec![];
+    for origin_pass in [false, true] {
+    ORIGIN_PASS.store(origin_pass, Relaxed);
+    // the pass with b = Origin runs with a shorter buffer (same alphabet size, same closure)
+    let l: usize = if origin_pass { l_main - 2 } else { l_main };
 
     // model length after a history (model only; used by `enabled`)
     let model_len = |hist: &[Op]| -> usize {
@@ -240,7 +249,7 @@ pub fn run(ctx: Ctx) -> ! {
                 Outcome::Violation
             }
             Ok(Err((fp, what))) => {
-                ctx.violation(fp, what, json!({"history": format!("{hist:?}"), "points": "a=(10,0a..) b=(20,0b..) c=(20,0c..) d=(10,0d..) never inserted"}));
+                ctx.violation(fp, what, json!({"history": format!("{hist:?}"), "points": "a=(10,0a..) b=(20,0b..) c=(20,0c..) d=(10,0d..) never inserted", "b_is_origin": ORIGIN_PASS.load(Relaxed)}));
                 Outcome::Violation
             }
             Ok(Ok(k)) => Outcome::State(k),
@@ -258,6 +267,13 @@ pub fn run(ctx: Ctx) -> ! {
         if st.states != expected_states {
             mc_core::report::machinery_failure(&format!("C26: {} canonical states, expected {} (all strings over abc up to length {l})", st.states, expected_states));
         }
+    }
+    passes.push((st, expected_states, l));
+    }
+    ORIGIN_PASS.store(false, Relaxed);
+    let (st2, expected2, l2) = passes.pop().unwrap();
+    let (st, expected_states, l) = passes.pop().unwrap();
+    if ctx.violation_count() == 0 {
         let d = &diag;
         if d.handled.load(Relaxed) == 0 || d.out_of_scope.load(Relaxed) == 0 || d.pops_nonempty.load(Relaxed) == 0 || d.pops_too_deep.load(Relaxed) == 0 || d.dup_rollbacks.load(Relaxed) == 0 {
             mc_core::report::machinery_failure("C26: an outcome class (handled / out-of-scope / non-empty pop / too-deep pop / duplicate roll-back) was never exercised");
@@ -282,6 +298,7 @@ pub fn run(ctx: Ctx) -> ! {
         "per_depth_new_states" => st.per_depth_new_states,
         "buffer_length_bound" => l,
         "expected_states" => expected_states,
+        "origin_pass" => json!({"what": "the same exploration with b = Point::Origin (roll-forward, roll-back target, buffered duplicate)", "buffer_length_bound": l2, "states": st2.states, "expected_states": expected2, "transitions": st2.transitions, "fixpoint": st2.fixpoint}),
         "alphabet" => "roll_forward(a|b|c) while len < L; roll_back(a|b|c|d), d never inserted; pop_with_depth(0|1|2|5)",
         "observables_compared_after_every_op" => ["return value (RollbackEffect / popped list)", "peek()", "size()", "latest()", "oldest()", "position(a..d)"],
         "observations" => diag.observations.load(Relaxed),
